@@ -389,7 +389,51 @@ func (t *Term) MentionsCall(suffix string) bool {
 	return found
 }
 
-// strip removes value-preserving wrappers (conversions, derefs).
+// wholeCopy: t = X[lo:hi] where X's content is a single copy of src at offset 0 into a
+// zero buffer and [lo:hi] spans exactly the N bytes of the fixed-size src.
+func wholeCopy(t *Term) (*Term, bool) {
+	if t.Op != "slice" || t.Args[2] == nil {
+		return nil, false
+	}
+	if t.Args[1] != nil {
+		if v, ok := t.Args[1].Int(); !ok || v != 0 {
+			return nil, false
+		}
+	}
+	n, ok := t.Args[2].Int()
+	if !ok {
+		return nil, false
+	}
+	x := t.Args[0]
+	if x.Op == "filled" && len(x.Args) == 2 {
+		x = x.Args[1]
+	}
+	if x.Op != "opaque" || x.Name != "copied" || len(x.Args) != 3 {
+		return nil, false
+	}
+	if b := x.Args[0]; !(b.Op == "zero" || b.Op == "make" || b.Op == "deref") {
+		return nil, false
+	}
+	if x.Args[2] != nil && !x.Args[2].IsNil() {
+		if v, ok := x.Args[2].Int(); !ok || v != 0 {
+			return nil, false
+		}
+	}
+	src := x.Args[1]
+	base := src
+	for base != nil && (base.Op == "slice" && base.Args[1] == nil && base.Args[2] == nil || base.Op == "convert" || base.Op == "deref") {
+		base = base.Args[0]
+	}
+	if base == nil || base.Typ == nil {
+		return nil, false
+	}
+	if a, ok := base.Typ.Underlying().(*types.Array); ok && a.Len() == n {
+		return src, true
+	}
+	return nil, false
+}
+
+// strip removes value-preserving wrappers (conversions, derefs, whole-value copies).
 func strip(t *Term) *Term {
 	for t != nil {
 		switch t.Op {
@@ -399,6 +443,12 @@ func strip(t *Term) *Term {
 		case "slice":
 			if t.Args[1] == nil && t.Args[2] == nil && t.Args[3] == nil {
 				t = t.Args[0]
+				continue
+			}
+			// a byte-for-byte copy of a whole fixed-size value into a fresh buffer, re-sliced to
+			// its full length: copied(zero, src, 0)[:N] with src an N-byte array (slice) - the bytes are src
+			if src, ok := wholeCopy(t); ok {
+				t = src
 				continue
 			}
 		}
